@@ -26,6 +26,7 @@ func main() {
 	cpuprof := flag.String("cpuprofile", "", "write a CPU profile")
 	harness := flag.String("harness", "", "directory of the harness module (for the native fuzz targets)")
 	modfile := flag.String("modfile", "", "alternative go.mod for builds started by the worker")
+	firstUse := flag.Bool("firstuse", false, "C16 helper: the very first verifications of this process run concurrently, with the embedded root; print verdicts and exit")
 	probe := flag.String("devprobe", "", "run client.GetRawQuote through the real LinuxDevice opened on this path, print the outcome, exit")
 	freeze := flag.String("freeze-world", "", "write a frozen honest case (for the fuzz targets) and exit")
 	flag.Parse()
@@ -33,6 +34,10 @@ func main() {
 	mon.HarnessDir, mon.ModFile = *harness, *modfile
 	if *probe != "" {
 		devProbe(*probe)
+		return
+	}
+	if *firstUse {
+		fmt.Println(props.FirstUse())
 		return
 	}
 	if *freeze != "" {
